@@ -14,6 +14,7 @@ from harness.lib import client_common as CC
 from harness.lib import client_wire as W
 
 COMPONENTS = ["client"]
+CONSTS = ["client", "clientquery"]
 TRUSTED = [
     "harness/lib/client_wire.py: independent encoders of the broker responses fed to the real client",
     "dump of the real client's dictionaries (harness/lib/client_common.dump_real)",
@@ -94,6 +95,7 @@ def run_direct_impl(ops):
     c = KafkaClient("boot:9092", reactor=w.clock, endpoint_factory=w.net, enable_protocol_version_discovery=False)
     out = []
     seen_bcs = {}
+    qtopics = query_topics(ops)
     for op in ops:
         k = op["op"]
         closed = []
@@ -104,8 +106,30 @@ def run_direct_impl(ops):
             ans = _apply_op(c, op, k, seen_bcs, closed, KafkaCodec, BrokerMetadata, BrokerResponseError)
         except Exception as e:  # the real code crashed: an observation, not a harness error
             ans = ["raise " + type(e).__name__]
-        out.append((ans, CC.dump_real(c), closed))
+        out.append((ans, CC.dump_real(c), closed, real_queries(c, qtopics)))
     return out
+
+
+def query_topics(ops):
+    """the topics the query methods are asked about in a history: the generator's universe, every topic the history
+    names (stored histories may use others), and one nobody ever mentions"""
+    names = list(CC.TOPICS)
+    for op in ops:
+        for n in [t[0] for t in op.get("topics", []) if isinstance(t, (list, tuple))] + [r[0] for r in op.get("resps", [])] + \
+                [t for t in op.get("topics", []) if isinstance(t, str)]:
+            if n not in names:
+                names.append(n)
+    return names + ["nosuch"]
+
+
+def real_queries(c, topics):
+    """answers of the real cache query methods, in the format of the model driver's `query` request"""
+    def bm(b):
+        return "%d@%s:%d" % (b.node_id, b.host, b.port)
+    lines = ["q %s %d %d" % (t, 1 if c.has_metadata_for_topic(t) else 0, c.metadata_error_for_topic(t)) for t in topics]
+    groups = c.consumer_group_to_brokers
+    lines.append("groups " + CC.lst("%s=%s" % (g, bm(b)) for g, b in groups.items()))
+    return lines
 
 
 def _apply_op(c, op, k, seen_bcs, closed, KafkaCodec, BrokerMetadata, BrokerResponseError):
@@ -184,10 +208,21 @@ def check_direct(ctx, res, histories, label="direct"):
         lines.append("reset"); expect.append(["ok"]); meta.append((hi, -1, "reset"))
         prev6 = EMPTY6
         nmerge = 0
-        for oi, (op, (ans, dump, closed)) in enumerate(zip(ops, impl)):
+        for oi, (op, (ans, dump, closed, queries)) in enumerate(zip(ops, impl)):
             lines.append(model_line(op)); expect.append(ans); meta.append((hi, oi, "op"))
             lines.append("dump"); expect.append(dump); meta.append((hi, oi, "dump"))
+            # the cache QUERY methods (has_metadata_for_topic, metadata_error_for_topic, consumer_group_to_brokers) answer
+            # from the model's cache what the real methods answer (Afkak/ClientQuery.lean)
+            lines.append("query " + "+".join(query_topics(ops))); expect.append(queries); meta.append((hi, oi, "query"))
+            for q in queries[:-1]:
+                res.count("query_has=%s" % q.split(" ")[2]); res.count("query_err=%s" % q.split(" ")[3])
             cur6 = six(dump)
+            if op["op"] == "merge" and op["topics"]:
+                # monitor queryMirror (C08_query_monitor_holds) on the REAL answers for the topics the response covered
+                covered = {n for n, _, _ in op["topics"]}
+                ans_tok = CC.lst("%s=%s:%s" % tuple(q.split(" ")[1:4]) for q in queries[:-1] if q.split(" ")[1] in covered)
+                lines.append("mon-query %s %s" % (CC.fmt_topics(op["topics"]), ans_tok))
+                expect.append(["ok"]); meta.append((hi, oi, "mon-query"))
             if op["op"] == "merge":
                 nmerge += 1
                 lines.append("mon-mirror %d %s %s %s %s %s" % (1 if op["all"] else 0, CC.fmt_brokers(op["brokers"]), CC.fmt_topics(op["topics"]), CC.ints(closed), prev6, cur6))
@@ -240,9 +275,9 @@ def check_direct(ctx, res, histories, label="direct"):
 def disagree_direct(ctx, ops):
     impl = run_direct_impl(ops)
     lines, expect = ["reset"], [["ok"]]
-    for op, (ans, dump, _) in zip(ops, impl):
-        lines += [model_line(op), "dump"]
-        expect += [ans, dump]
+    for op, (ans, dump, _, queries) in zip(ops, impl):
+        lines += [model_line(op), "dump", "query " + "+".join(query_topics(ops))]
+        expect += [ans, dump, queries]
     return ctx.model("client", lines) != expect
 
 
@@ -349,9 +384,9 @@ def replay(ctx, data):
     r = Result()
     check_direct(ctx, r, [ops])
     impl = run_direct_impl(ops)
-    for op, (ans, dump, closed) in zip(ops, impl):
+    for op, (ans, dump, closed, queries) in zip(ops, impl):
         print("op", json.dumps(op))
-        print("  impl", ans, dump)
+        print("  impl", ans, dump, queries)
     print("disagreements", json.dumps(r.disagreements, default=str)[:2000])
     print("monitor failures", json.dumps(r.monitor_failures, default=str)[:2000])
     if r.monitor_failures:
